@@ -60,8 +60,74 @@ fn gen_c08(p: &mut Prng, id: String) -> FwCase {
     FwCase { id, kind: "c08".into(), machines, fp: 0.0, fb: 0.0, t0: 0, calls, rng_seed: p.next(), extreme: 0, ni: None, prefix: vec![] }
 }
 
+/// C09, role-based: every machine signals on one chosen external event, may END on another,
+/// may answer a delivered Signal by signalling, and acts on Signal; batches are drawn from the
+/// events in use so that "X signals, X ends, Y signals" and similar orders occur within one call.
+fn gen_c09_roles(p: &mut Prng, id: String) -> FwCase {
+    use enum_map::enum_map;
+    use maybenot::action::Action;
+    use maybenot::constants::{STATE_END, STATE_SIGNAL};
+    use maybenot::dist::{Dist, DistType};
+    use maybenot::event::Event;
+    use maybenot::state::{State, Trans};
+    let ext = [Event::NormalRecv, Event::PaddingRecv, Event::TunnelRecv, Event::NormalSent, Event::TunnelSent, Event::BlockingEnd];
+    let n = p.range(2, 4) as usize;
+    let k = |v: f64| Dist { dist: DistType::Uniform { low: v, high: v }, start: 0.0, max: 0.0 };
+    let mut machines = Vec::new();
+    for i in 0..n {
+        let sig_ev = *p.pick(&ext);
+        let end_ev = *p.pick(&ext);
+        let mut t0 = enum_map! { _ => vec![] };
+        if p.chance(3, 4) {
+            t0[sig_ev] = vec![Trans(STATE_SIGNAL, 1.0)];
+        }
+        if end_ev != sig_ev && p.chance(1, 2) {
+            t0[end_ev] = vec![Trans(STATE_END, 1.0)];
+        }
+        // reaction to a delivered Signal: act (state 1), answer by signalling, or both via state 1
+        match p.below(4) {
+            0 => t0[Event::Signal] = vec![Trans(1, 1.0)],
+            1 => t0[Event::Signal] = vec![Trans(STATE_SIGNAL, 1.0)],
+            2 => t0[Event::Signal] = vec![Trans(1, 0.5), Trans(STATE_SIGNAL, 0.5)],
+            _ => {}
+        }
+        let mut s0 = State::new(t0);
+        if p.chance(1, 3) {
+            s0.action = Some(Action::SendPadding { bypass: false, replace: false, timeout: k(i as f64), limit: None });
+        }
+        let mut t1 = enum_map! { _ => vec![] };
+        t1[Event::Signal] = vec![Trans(0, 1.0)];
+        t1[sig_ev] = vec![Trans(0, 1.0)];
+        let mut s1 = State::new(t1);
+        s1.action = Some(Action::SendPadding { bypass: false, replace: false, timeout: k(10.0 + i as f64), limit: None });
+        machines.push(Machine::new(1000, 0.0, 0, 0.0, vec![s0, s1]).expect("role machine"));
+    }
+    let ncalls = p.range(1, 12);
+    let mut t: i128 = 0;
+    let mut calls = Vec::new();
+    for _ in 0..ncalls {
+        t += 1000;
+        let len = p.range(1, 5);
+        let evs: Vec<TriggerEvent> = (0..len)
+            .map(|_| match p.below(6) {
+                0 => TriggerEvent::NormalRecv,
+                1 => TriggerEvent::PaddingRecv,
+                2 => TriggerEvent::TunnelRecv,
+                3 => TriggerEvent::NormalSent,
+                4 => TriggerEvent::TunnelSent,
+                _ => TriggerEvent::BlockingEnd,
+            })
+            .collect();
+        calls.push((t, evs));
+    }
+    FwCase { id, kind: "c09".into(), machines, fp: 0.0, fb: 0.0, t0: 0, calls, rng_seed: p.next(), extreme: 0, ni: None, prefix: vec![] }
+}
+
 /// C09: machines that signal on external events, LimitReached, CounterZero and Signal.
 fn gen_c09(p: &mut Prng, id: String) -> FwCase {
+    if p.chance(1, 2) {
+        return gen_c09_roles(p, id);
+    }
     let mut cfg = GenCfg::default();
     cfg.dist = DistMode::Const;
     cfg.max_states = p.range(1, 3) as usize;
